@@ -129,7 +129,7 @@ def gen_case(st, i, tier="quick", op=None):
     if many:
         # merges over many partial results (13..20 blocks): ~20 000 tasks, 10-80 s per run, so rare,
         # with a short stat list, and only in the thorough tier
-        MB = rng.randint(13, 20)
+        MB = rng.choice([13, 15, 16, 17, 17, 18, 20])      # around a power of two (tree merges)
     if op == "zonal_stats":
         vdt = rng.choice(["i4", "i8", "u1", "f4", "f8", "f8"])
         v = _values(rng, (H, W), vdt)
